@@ -484,14 +484,17 @@ def check(model, rep, tier):
             'CFG-JUMP', '%s:visit_Raise:error-node' % CFG,
             'raise nodes must be recorded as error exits', line=vr.node.lineno
             if vr else None)
-  pfd = cls.methods.get('_process_function_def')
-  ok = pfd is not None and any(
+  vl = cls.methods.get('visit_Lambda')
+  if vl is None:
+    raise core.AnalysisError('AstToCfg.visit_Lambda not found')
+  lp = vl.params()[0]
+  ok = any(
       isinstance(c, ast.Call) and core.norm(c.func) == 'self._process_exit_statement'
-      and core.norm(c.args[0]) == 'node.body' and kinds_of(c.args[1]) == {'Lambda'}
-      for c in ast.walk(pfd.node))
+      and core.norm(c.args[0]) == lp + '.body' and kinds_of(c.args[1]) == {'Lambda'}
+      for c in ast.walk(vl.view(keep=('_process_exit_statement',))))
   rep.check(ok, 'CFG-JUMP', '%s:lambda-body-is-exit' % CFG,
-            'a lambda body is the exit of its own graph', line=pfd.node.lineno
-            if pfd else None)
+            'a lambda body is the exit of its own graph (visit_Lambda, private '
+            'helpers expanded)', line=vl.node.lineno)
   pes = cls.methods.get('_process_exit_statement')
   pp = pes.params()
   n1, b1 = pat.first(pes.node, '_T_, _G_ = self._get_enclosing_finally_scopes(%s)' % pp[1])
@@ -584,20 +587,30 @@ def mirror_rule(model, rep, rule):
   if cn is None:
     raise core.AnalysisError('GraphBuilder._connect_nodes not found')
   blocks = []
+  ps = cn.params()
+  if len(ps) < 2:
+    raise core.AnalysisError('GraphBuilder._connect_nodes: parameters changed')
+  dst = ps[-1]
 
   def find_block(stmts):
-    texts = [core.norm(s) for s in stmts]
-    if 'first.next.add(second)' in texts:
-      blocks.append(texts)
+    # the block that adds `dst` to some source's successor set: X.next.add(dst)
     for s in stmts:
-      for f in ('body', 'orelse'):
+      b = pat.match('_X_.next.add(%s)' % dst, s)
+      if b is not None and b.get('_X_', '').isidentifier():
+        blocks.append((b['_X_'], [core.norm(t) for t in stmts]))
+    for s in stmts:
+      for f in ('body', 'orelse', 'finalbody'):
         b = getattr(s, f, None)
         if isinstance(b, list):
           find_block(b)
 
   find_block(cn.node.body)
-  ok = len(blocks) == 1 and 'second.prev.add(first)' in blocks[0] and \
-      'self.forward_edges.add((first, second))' in blocks[0]
+  ok = len(blocks) == 1
+  if ok:
+    src, texts = blocks[0]
+    ok = '%s.prev.add(%s)' % (dst, src) in texts and \
+        'self.forward_edges.add((%s, %s))' % (src, dst) in texts
+    blocks = [texts]
   rep.check(ok, rule, '%s:three-updates-together' % cn.site,
             'next, prev and forward_edges must be updated together for every '
             'edge: statement-level successor sets are computed from '
